@@ -210,6 +210,12 @@ def run_case(desc) -> Result:
         t = np.where(finite[:, None, None], t, t_c)
         finite = np.isfinite(t).all(axis=(1, 2))
     sub = _subthreshold(vals) if rel else np.zeros(len(finite), dtype=bool)
+    if cfg["phsp"] == "PhaseSpaceFactorAbs" and cfg["L"] == 0:
+        # the one variant whose widths stay real below threshold (rho_hat >= 0, B_0 = 1): the open
+        # finding does not apply, sub-threshold poles are asserted like every other point
+        if sub.any():
+            labels.append("pole_below_threshold:asserted(Abs,L=0)")
+        sub = np.zeros(len(finite), dtype=bool)
     above = kmat.poles_above_thresholds(vals) if rel else np.ones(len(finite), dtype=bool)
     if not finite.all():
         k = int(np.flatnonzero(~finite)[0])
